@@ -154,6 +154,26 @@ Proof. induction a as [|x a IH]; intros [|y b] H; try discriminate; cbn; [reflex
 Lemma parse_coef_doc : forall l : list (list float), opt_all (map parse_floats (map jfloats l)) = Some l.
 Proof. intros l. apply opt_all_map_inv. intros x _. apply parse_floats_doc. Qed.
 
+(* looking the stored entries up by name along the SAME order they were written in changes nothing *)
+Lemma scaler_doc_keys : forall ts loc scale fs, scaler_doc ts loc scale = Some fs -> map fst fs = ts.
+Proof.
+  induction ts as [|k ts IH]; intros loc scale fs H; cbn in H.
+  - injection H as <-. reflexivity.
+  - destruct loc as [|a loc], scale as [|b scale]; try discriminate.
+    destruct (scaler_doc ts loc scale) as [r|] eqn:E; [|discriminate]. injection H as <-. cbn. rewrite (IH _ _ _ E). reflexivity.
+Qed.
+
+Lemma reorder_same_order : forall fs : list (string * json), NoDup (map fst fs) -> reorder (map fst fs) fs = Some fs.
+Proof.
+  unfold reorder. intros fs. induction fs as [|[k v] fs IH]; intros Hnd; cbn; [reflexivity|].
+  inversion Hnd as [|? ? Hnotin Hnd']; subst. rewrite String.eqb_refl. cbn.
+  assert (E : map (fun k0 => option_map (fun v0 => (k0, v0)) (if String.eqb k0 k then Some v else get k0 fs)) (map fst fs)
+              = map (fun k0 => option_map (fun v0 => (k0, v0)) (get k0 fs)) (map fst fs)).
+  { apply map_ext_in. intros k0 Hin. destruct (String.eqb k0 k) eqn:Ek; [|reflexivity].
+    apply String.eqb_eq in Ek. subst k0. contradiction. }
+  rewrite E, (IH Hnd'). reflexivity.
+Qed.
+
 (* ---------------------------------------------------------------- the round trip *)
 
 Definition wf_hourly (s : hourly_state) : Prop :=
@@ -173,7 +193,7 @@ Section RoundTrip.
 Variable paths : list (list string).
 
 Lemma hourly_from_to_gen : forall null_ok s d, wf_hourly s -> hourly_to_doc s = Some d ->
-  hourly_from_doc_gen paths null_ok d =
+  hourly_from_doc_gen paths null_ok false d =
   match hs_edge_coeffs s with
   | None => if null_ok then Some (with_hsettings s (coerce paths (hs_settings s))) else None
   | Some _ => Some (with_hsettings s (coerce paths (hs_settings s)))
@@ -269,6 +289,14 @@ Lemma hourly_edge_keys_restored_l : forall s d n, wf_hourly s -> hourly_to_doc s
 Proof.
   intros s d n Hwf Hd. destruct (hourly_roundtrip_fields_l s d Hwf Hd) as (s' & Hs & _ & Hedge & _).
   exists s'. split; [exact Hs|]. rewrite Hedge. reflexivity.
+Qed.
+
+(* every feature gets its own (location, scale) back *)
+Lemma hourly_scaler_restored_l : forall s d name, wf_hourly s -> hourly_to_doc s = Some d ->
+  exists s', hourly_from_doc paths d = Some s' /\ feature_scaler_of s' name = feature_scaler_of s name.
+Proof.
+  intros s d name Hwf Hd. destruct (hourly_roundtrip_fields_l s d Hwf Hd) as (s' & Hs & _ & _ & _ & _ & Hts & _ & Hl & Hsc & _).
+  exists s'. split; [exact Hs|]. unfold feature_scaler_of. rewrite Hts, Hl, Hsc. reflexivity.
 Qed.
 
 (* regression witness: the reader before c3a9d07e fails exactly on the models fitted without edge bins *)
